@@ -39,10 +39,30 @@ PROPS = {
                 technique="contracts on the real code: main() exceptional postconditions by pvc; document unchanged after a refused edit decided by run-time-checked postconditions over the enumerated edit space (labelled bounded)",
                 text="a refused edit raises KeyError/ValueError, leaves rebuild() unchanged, and later edits behave as on a fresh parse",
                 note="bounded; see DESIGN.md C08"),
+    "C10": dict(level="exploration", bounded="bounded.b_c10", trusted_base=TRUSTED_COMMON,
+                technique="contracts on the real code: context-registry obligations by pvc where reached; precedence decided by a run-time-checked postcondition on Identifier.value over all scope nestings up to a depth bound, expected binder computed on the generator's description (labelled bounded)",
+                text="resolution result equals the binder Nix scoping designates on every enumerated nesting; unbound/cyclic names raise ResolutionError; no context leaks between documents over a create/resolve/discard history",
+                note="bounded; see DESIGN.md C10"),
+    "C11": dict(level="exploration", bounded="bounded.b_c11", trusted_base=TRUSTED_COMMON,
+                technique="contracts on the real code: run-time-checked postcondition on set_value over constructed documents whose defining binding is known by construction (labelled bounded)",
+                text="exactly the defining binding changes on every constructed case; unbound names overwrite the path binding",
+                note="bounded; see DESIGN.md C11"),
+    "C13": dict(level="exploration", bounded="bounded.b_c13", trusted_base=TRUSTED_COMMON + ["independent CST value reader (bounded/b_c13.py)"],
+                technique="contracts on the real code: string escaping proved by pvc against the Nix string-lexer automaton (for all strings); containers, numbers and contexts decided by run-time-checked postconditions over an enumerated value space (labelled bounded)",
+                text="every enumerated Python value renders to text that an independent reader decodes to the same value, deterministically and stably",
+                note="float -> text is outside the verifier (no float theory in the encoding): floats are bounded only"),
     "C14": dict(level="exploration", bounded="bounded.b_c14", trusted_base=TRUSTED_COMMON + ["independent CST reader (bounded/readers.py)"],
                 technique="contracts on the real code: representation invariant / dictionary-law obligations on the mapping dunders by pvc where reached; text/mapping agreement decided by run-time-checked postconditions over all short scripts of mapping operations (labelled bounded)",
                 text="after every step of every enumerated script: text tree == dict model == lookups; KeyError without side effects",
                 note="bounded; see DESIGN.md C14"),
+    "C16": dict(level="proof", bounded="bounded.b_c16", trusted_base=TRUSTED_COMMON + ["assumed contracts on argparse, parse, set_value, remove_value, rebuild (listed in evidence.assumptions)"],
+                technique="deductive verification (pvc) of cli/main.py::main against a contract stated relative to uninterpreted library functions; subprocess runs as bounded cross-check",
+                text="main(): verdict/exit code of `test`, stdout of set/rm = library text with a line terminator only when missing, nothing on stdout when an edit raises - proved for all inputs under the assumed library contracts",
+                note="argument/input-channel wiring inside argparse is assumed (External contract on parser.parse_args / args.file.read), and sampled by the subprocess stand-in"),
+    "C17": dict(level="exploration", bounded="bounded.b_c17", trusted_base=TRUSTED_COMMON + ["pathlib / OS path semantics"],
+                technique="contracts on the real code: resolved_path / import following by pvc where reached; run-time-checked postconditions over generated directory layouts x working directories (labelled bounded)",
+                text="every lookup through import chains returns the value planted in the file relative to the importing file, for all cwd/spelling combinations; the three error cases raise the documented types",
+                note="bounded; see DESIGN.md C17"),
     "C19": dict(level="exploration", bounded="bounded.b_c19", trusted_base=TRUSTED_COMMON,
                 technique="contracts on the real code: laws checked as run-time postconditions on alternative edit sequences over the enumerated document space (labelled bounded)",
                 text="idempotence, set/rm restoration, rm/set tree restoration and commutation hold on every enumerated document",
